@@ -98,6 +98,9 @@ def run_worlds(acc, prop, tier, seed, shard, nshards, monitor_factory, weights, 
     srv = Server()
     try:
         for wi in range(n_worlds):
+            from . import core
+            if core.skip_world(wi):
+                continue
             key = (seed, prop, tier, shard, wi)
             rng = sub_rng("len", *key)
             n = rng.randrange(steps[0], steps[1] + 1)
